@@ -108,7 +108,7 @@ func Families(tier string) []Family {
 	// scalar-n: int / float, mandatory and optional value (C01)
 	{
 		f := Family{Name: "scalar-n"}
-		toks := Ts("--i", "--i=1", "--i=-1", "--i=1x", "--i=1..3", "--i=010", "--io", "--io=2", "--f", "--f=1.5", "--f=x", "--fo", "1", "-1", "1x", "1.5", "1..3", "0x10", "--b", "--")
+		toks := Ts("--i", "--i=1", "--i=-1", "--i=1x", "--i=1..3", "--i=010", "--io", "--io=2", "--f", "--f=0.1", "--f=x", "--fo", "1", "-1", "1x", "1.5", "1..3", "0x10", "--b", "--")
 		for mode := 0; mode < 3; mode++ {
 			c := Cfg{Mode: mode}
 			c.Nodes = []NodeCfg{rootNode(0, false)}
@@ -127,7 +127,7 @@ func Families(tier string) []Family {
 		for _, m := range []mk{
 			{"multi-ss", "sslice", Ts("--l", "--l=v", "v", "w", "--b", "--", "-", "cmd", "-x")},
 			{"multi-is", "islice", Ts("--l", "--l=1", "--l=1..3", "1", "2", "1.5", "1..3", "3..1", "x", "--b", "--")},
-			{"multi-fs", "fslice", Ts("--l", "--l=1.5", "--l=x", "1.5", "2", "x", "--b", "--")},
+			{"multi-fs", "fslice", Ts("--l", "--l=0.1", "--l=x", "1.5", "2", "1e-320", "x", "--b", "--")},
 			{"multi-sm", "smap", Ts("--l", "--l=k=v", "k=v", "k=w=z", "K=v", "j=1", "x", "--b", "--")},
 		} {
 			f := Family{Name: m.name}
